@@ -112,6 +112,45 @@ def main() -> int:
         return 2
 
 
+def _reproduces(prop: str, path: str) -> bool:
+    """replay in a fresh interpreter; True iff it reports the violation again."""
+    env = dict(os.environ, PYTHONHASHSEED="0")
+    r = subprocess.run([PY, os.path.abspath(__file__), prop, "--replay", path], env=env, cwd=VERIF_DIR,
+                       capture_output=True, text=True)
+    return r.returncode == 1
+
+
+def _confirm_failure(prop: str, failure: dict, first_failure: dict | None, history: dict | None) -> str | None:
+    """A replay must be a plain regression case. Try the shrunk case, then the case as first
+    found, then growing suffixes of the shard's case sequence (for failures that depend on state
+    the library kept from earlier cases)."""
+    for cand in (failure, first_failure):
+        if cand is None:
+            continue
+        path = _write_replay(prop, cand)
+        if _reproduces(prop, path):
+            print(f"failing case ({cand['part']}): {cand['clause']}: {cand['detail']}")
+            return path
+        os.unlink(path)
+    if history and first_failure:
+        cases = history["cases"]
+        k = 2
+        while True:
+            seq = cases[-k:]
+            cand = {"prop": prop, "part": history["part"], "sequence": seq,
+                    "clause": first_failure["clause"], "detail": first_failure["detail"]}
+            path = _write_replay(prop, cand)
+            if _reproduces(prop, path):
+                print(f"failing case ({history['part']}, needs the preceding {len(seq) - 1} case(s) in the "
+                      f"same process): {cand['clause']}: {cand['detail']}")
+                return path
+            os.unlink(path)
+            if k >= len(cases):
+                break
+            k = min(len(cases), k * 4)
+    return None
+
+
 def _parent(module, prop: str, tier: str, seed: int, shards: int | None) -> int:
     from pbt import runtime as rt
 
@@ -152,6 +191,8 @@ def _parent(module, prop: str, tier: str, seed: int, shards: int | None) -> int:
         procs.append((p, out, log))
     stats = rt.Stats()
     failure = None
+    first_failure = None
+    history = None
     harness_errors = []
     for p, out, log in procs:
         rc = p.wait()
@@ -165,6 +206,8 @@ def _parent(module, prop: str, tier: str, seed: int, shards: int | None) -> int:
         stats.merge_json(res["stats"])
         if res["failure"] is not None and failure is None:
             failure = res["failure"]
+            first_failure = res.get("first_failure")
+            history = res.get("history")
     shutil.rmtree(work, ignore_errors=True)
     try:
         os.rmdir(os.path.join(VERIF_DIR, ".work"))
@@ -177,14 +220,12 @@ def _parent(module, prop: str, tier: str, seed: int, shards: int | None) -> int:
         return 2
 
     if failure is not None:
-        # confirm outside Hypothesis in this (fresh) process: a replay must be a plain regression
-        held, msg = rt.replay_case(module, failure)
-        path = _write_replay(prop, failure)
-        if held:
-            print(f"harness error: saved case {path} does not reproduce outside the search "
+        path = _confirm_failure(prop, failure, first_failure, history)
+        if path is None:
+            print(f"harness error: failing case does not reproduce in a fresh process, neither shrunk, nor as "
+                  f"first found, nor as the sequence of cases that led to it "
                   f"({failure['clause']}: {failure['detail']})", file=sys.stderr)
             return 2
-        print(f"failing case ({failure['part']}): {failure['clause']}: {failure['detail']}")
         violations.append(path)
 
     wall = time.monotonic() - t0
